@@ -838,10 +838,24 @@ func (g *genCtx) stmt(sc *scopeInfo) Stmt {
 		g.timeSet = false // the definition is instantiated at other sites too
 		c, caps := g.condition()
 		g.caps = caps
+		// half of the time `next` sits under two nested conditions, so that
+		// the decorated block sees the captures of both (the inner one
+		// shadowing equal group numbers of the outer one)
+		var c2 Expr
+		if r.Intn(2) == 0 {
+			var caps2 []capVar
+			c2, caps2 = g.condition()
+			caps = append(append([]capVar{}, caps...), caps2...)
+			g.caps = caps
+			g.f("decorator-next-under-two-conditions")
+		}
 		var inner []Stmt
 		inner = append(inner, g.block(r.Intn(2), &scopeInfo{noOtherwise: true})...)
 		inner = append(inner, &Next{})
 		inner = append(inner, g.block(r.Intn(2), &scopeInfo{noOtherwise: true})...)
+		if c2 != nil {
+			inner = []Stmt{&Cond{C: c2, Then: inner}}
+		}
 		def.Body = []Stmt{&Cond{C: c, Then: inner}}
 		g.inDef = false
 		g.timeSet = savedTime
@@ -868,7 +882,9 @@ func (g *genCtx) stmt(sc *scopeInfo) Stmt {
 		defer func() { g.openDecos = g.openDecos[:len(g.openDecos)-1] }()
 		g.f("decorator-reuse")
 		var caps []capVar
-		if c, ok := def.Body[0].(*Cond); ok {
+		// the captures visible at `next`: those of the definition's condition
+		// and, when next sits under a second condition, of that one too
+		for c, ok := def.Body[0].(*Cond); ok; {
 			if pt := patternOf(c.C); pt != nil {
 				usable := false
 				switch cc := c.C.(type) {
@@ -882,6 +898,11 @@ func (g *genCtx) stmt(sc *scopeInfo) Stmt {
 				for i, grp := range pt.Groups {
 					caps = append(caps, capVar{pt, i + 1, grp.T, !usable})
 				}
+			}
+			if len(c.Then) == 1 {
+				c, ok = c.Then[0].(*Cond)
+			} else {
+				ok = false
 			}
 		}
 		saved := g.caps
